@@ -103,6 +103,12 @@ def run(ctx):
                 header["zip"] = "DEF"
             if rng.random() < 0.15:
                 header["cty"] = rng.choice(["JWT", "example"])
+            # parameters of the key-management algorithm that the caller may choose come back as chosen
+            if alg.startswith("PBES2") and rng.random() < 0.6:
+                header["p2c"] = rng.choice([1, 2, 500, 999, 1000, 1001, 4096])
+            if alg.startswith("ECDH") and rng.random() < 0.4:
+                header["apu"] = "QWxpY2U"
+                header["apv"] = rng.choice(["Qm9i", ""])
             kw = {"registry": jwe.JWERegistry(algorithms=E.ALL_NAMES)}
         form = rng.choice(["key", "key", "set", "callable"])
         sk, pk = K.key(kn, private=True), K.key(kn, private=K._SPECS[kn][0] == "oct" or transport == "jwe")
@@ -147,7 +153,8 @@ def run(ctx):
         if got[0] != "ok":
             ctx.report(f"decoding an encoded JWT with the matching key failed: {got[1]}", {"header": hdr_snapshot, "claims": repr(claims)[:300], "transport": transport}, f"roundtrip:{transport}:failed")
             continue
-        g_header = {k_: v for k_, v in got[2].items() if k_ not in ("epk", "p2s", "p2c", "iv", "tag")}
+        # members the library generates are left out of the comparison - unless the caller gave them (p2c, p2s), then they count
+        g_header = {k_: v for k_, v in got[2].items() if k_ not in ("epk", "p2s", "p2c", "iv", "tag") or k_ in hdr_snapshot}
         if got[1] != want_claims:
             ctx.report("decoded claims differ (as JSON) from the encoded ones", {"encoded": repr(claims)[:400], "decoded": repr(got[1])[:400]}, f"roundtrip:{transport}:claims")
         if g_header != want_header:
